@@ -47,6 +47,7 @@ type ObsInst struct {
 	Calls      int
 	Epoch      int // epoch in which it was last registered
 	touched    bool
+	Invalid    bool // its registration is rejected by ark (misuse); never registered by ops or callbacks
 }
 
 type firing struct {
@@ -500,6 +501,8 @@ func (s *Sim) step(op *Op) {
 		s.opQMisuse(op)
 	case KRegistry:
 		s.opRegistry(op)
+	case KBatchUse:
+		s.opBatchUse(op)
 	default:
 		bug("unknown op kind %q", op.K)
 	}
